@@ -8,25 +8,29 @@ from .c04 import flw, gen_case as gen_flow_case, rules_ron
 BASE_ENV = {"PATH": "/usr/bin:/bin", "HOME": "/tmp", "LANG": "C"}
 
 
-def run_procs(cmds, env=None, timeout=30, workers=NPROC, cwd="/tmp", binary=None):
+def run_procs(cmds, env=None, timeout=30, workers=NPROC, cwd="/tmp", binary=None, times=None):
     """cmds: list of (argv-without-program, stdin bytes|None). returns list of (rc, stdout, stderr) (bytes); rc=-999 on timeout"""
     e = dict(BASE_ENV)
     if env:
         e.update(env)
     prog = binary or ZERV
 
-    def one(c):
-        argv, inp = c
+    def one(ic):
+        i, (argv, inp) = ic
+        t0 = int(time.time())
         try:
             p = subprocess.run([prog] + argv, input=inp if inp is not None else b"", stdout=subprocess.PIPE, stderr=subprocess.PIPE,
                                env=e, timeout=timeout, cwd=cwd)
-            return (p.returncode, p.stdout, p.stderr)
+            r = (p.returncode, p.stdout, p.stderr)
         except subprocess.TimeoutExpired:
-            return (-999, b"", b"timeout")
+            r = (-999, b"", b"timeout")
         except (ValueError, OSError) as ex:          # e.g. embedded NUL in an argument
-            return (-998, b"", str(ex).encode())
+            r = (-998, b"", str(ex).encode())
+        if times is not None:
+            times[i] = (t0, int(time.time()))
+        return r
     with concurrent.futures.ThreadPoolExecutor(max_workers=workers) as ex:
-        return list(ex.map(one, cmds))
+        return list(ex.map(one, enumerate(cmds)))
 
 
 def ron_texts(objs):
@@ -112,5 +116,29 @@ def model_request(case, extra_argv, now=0):
     stdin = zgen.enc_zerv(*case["stdin_obj"]) if case.get("stdin_obj") else None
     argv = case["argv"] + extra_argv
     if case["cmd"] == "version":
-        return ver("text", stdin, argv, case.get("ron"), case.get("custom"))
+        return ver("text", stdin, argv, case.get("ron"), case.get("custom")) + f" N {now}"
     return flw("text", stdin, argv, now, ron=case.get("ron"), rules=case.get("rules"))
+
+
+def model_texts(cases, extras, times):
+    """model's text-mode prediction for each case, the clock taken from the case's own process window.
+    Returns list of (reply, alternatives) where alternatives are replies for the other seconds of the window."""
+    reqs, idx = [], []
+    for i, (c, extra) in enumerate(zip(cases, extras)):
+        t0, t1 = times.get(i, (0, 0))
+        for t in range(t0, min(t1, t0 + 5) + 1):
+            reqs.append(model_request(c, extra, t) + " | -")
+            idx.append(i)
+    mo = run_lines([ZVM], reqs)
+    out = [[] for _ in cases]
+    for i, m in zip(idx, mo):
+        out[i].append(m.partition("\t")[0])
+    return out
+
+
+def text_matches(replies, text):
+    """does the binary's stdout text equal one of the model's predictions (OK <hex>)?"""
+    for r in replies:
+        if r.startswith("OK ") and unhx(r.split(" ")[1]) == text:
+            return True
+    return False
